@@ -22,7 +22,7 @@ from sim.engines.archsim import key_domain, value_domain, same, same_dict, famil
 PROPS = ['C08']
 
 OPS = [(10, 'cset'), (4, 'cdel'), (3, 'cpop'), (4, 'cupdate'), (2, 'cclear'), (2, 'csetdefault'),
-       (5, 'aset'), (3, 'adel'), (2, 'aupdate'), (1, 'aclear'),
+       (5, 'aset'), (3, 'adel'), (2, 'aupdate'), (1, 'aclear'), (3, 'xset'), (2, 'xdel'),
        (7, 'dump'), (5, 'dump_k'), (7, 'load'), (5, 'load_k'), (5, 'sync'), (3, 'sync_clear'),
        (3, 'archived'), (3, 'akeys'), (4, 'off'), (4, 'on'), (2, 'open'), (1, 'drop'), (2, 'advance'), (2, 'popkeys')]
 
@@ -44,9 +44,12 @@ def generate(rng, prop, tier):
         op = {'op': kind}
         k = lambda: rng.choice(keys)
         v = lambda: rng.choice(vals)
-        if kind in ('cset', 'aset', 'csetdefault'):
+        if kind in ('xset', 'xdel') and not B.is_persistent(B.config(label, 's0')):
+            kind = {'xset': 'aset', 'xdel': 'adel'}[kind]       # no second handle on an in-memory archive
+            op = {'op': kind}
+        if kind in ('cset', 'aset', 'csetdefault', 'xset'):
             op['k'], op['v'] = k(), v()
-        elif kind in ('cdel', 'cpop', 'adel'):
+        elif kind in ('cdel', 'cpop', 'adel', 'xdel'):
             op['k'] = k()
         elif kind in ('cupdate', 'aupdate'):
             op['m'] = [[k(), v()] for _ in range(rng.randint(0, 3))]
@@ -229,6 +232,20 @@ def execute(case, prop, ctx):
                     else:
                         a.clear()
                         m.clear()
+                elif kind in ('xset', 'xdel'):
+                    # somebody else's handle on the same location (another cache, another process) changes an entry
+                    other = B.make(rcfgs[0], root, cached=False)
+                    m = models[0]
+                    bump(faults, 'mutation-through-another-handle')
+                    if kind == 'xset':
+                        other[dec(op['k'])] = dec(op['v'])
+                        m[dec(op['k'])] = dec(op['v'])
+                    else:
+                        e = call(lambda: m.__delitem__(dec(op['k'])))
+                        g = call(lambda: other.__delitem__(dec(op['k'])))
+                        if e[0] != g[0]:
+                            raise Mismatch('archive-op', 'del through another handle: model %s, archive %s' % (e[0], g[0]))
+                    del other
                 elif kind == 'dump':
                     c.dump()
                     if att is not None:
